@@ -84,7 +84,6 @@ type sim struct {
 	extValid  bool
 	intRecv   uint64
 	intLost   uint64
-	intSilent bool
 	behind    int
 	blind     bool
 	reports   int
@@ -425,9 +424,7 @@ func (s *sim) feed(j int, a arrival) {
 	}
 	s.cumLost += lost
 	s.intLost += lost
-	if callSilent {
-		s.intSilent = true
-	} else if !s.blind && lost != skipped {
+	if !callSilent && !s.blind && lost != skipped {
 		s.fail("c14/o3-lost call", "call reported %d lost, but %d sequence numbers were skipped between the packets it delivered (arrival id %d seq %d, delivered ids %d..%d)", lost, skipped, a.id, sp.seq, r.first, r.last)
 	}
 	if len(pkts) > 1 && lost > 0 {
@@ -516,7 +513,7 @@ func (s *sim) onReport(p rtcp.Packet) {
 	r := rec{kind: 'r', t: s.now(), a: uint64(rb.LastSequenceNumber), b: uint64(rb.TotalLost), c: uint64(rb.FractionLost)}
 	s.mix(0xEE, r.a, r.b, r.c)
 	defer func() {
-		s.intRecv, s.intLost, s.intSilent = 0, 0, false
+		s.intRecv, s.intLost = 0, 0
 		s.recs = append(s.recs, r)
 	}()
 	if s.blind || !s.haveLast {
@@ -691,11 +688,17 @@ func run(t *testing.T, sc Scenario) *core.Result {
 		"delivered": s.delivered, "lost_reported": s.cumLost, "reports": s.reports, "incarnations": pl.epochs, "blind": s.blind,
 	}
 	if res.Violation != nil {
-		from := 0
-		if len(s.recs) > 40 {
-			from = len(s.recs) - 40
+		// the 40 lines up to (and a few after) the event the violation names
+		at := len(s.recs) - 1
+		for i := range s.recs {
+			if s.recs[i].kind == 'a' && s.recs[i].j == s.j {
+				at = i
+				break
+			}
 		}
-		for i := from; i < len(s.recs); i++ {
+		to := minInt(len(s.recs), at+8)
+		from := maxInt(0, to-40)
+		for i := from; i < to; i++ {
 			res.Tail = append(res.Tail, s.recs[i].String())
 		}
 	}
